@@ -19,6 +19,15 @@ def F(rule, fi, construct, msg, node=None):
 
 
 def run(prog, tier):
+    _R = _run(prog, tier)
+    # the names shown next to the literals are the names of those variables: all_variable_labels (C11, folded)
+    from . import c11 as _c11
+    from ._families import borrow as _b
+    _b(_R, P, 'NAMES', prog, _c11.check_gapfill, floor=1)
+    return _R
+
+
+def _run(prog, tier):
     R = Result(P, "COUNT-PROVENANCE: the `#variable= #constraint=` line states number_of_variables() and len() of the formula whose rows are "
                "written.  ONE-ROW-PER-CLAUSE: in both branches of the OPB writer each row writes its terms in order and then its relation "
                "and degree exactly once, unconditionally; in the LaTeX row loop every path calls the row writer exactly once with row i, "
